@@ -18,7 +18,7 @@ def available(names):
     return [n for n in names if (HERE / f"{n}.py").exists()]
 
 
-def gen_cases(names, tier, rng, per_base, keep=None):
+def gen_cases(names, tier, rng, per_base, keep=None, prefer=None):
     out = []
     for n in available(names):
         b = base(n)
@@ -27,9 +27,17 @@ def gen_cases(names, tier, rng, per_base, keep=None):
             cs = [c for c in cs if keep(n, b, c)]
         corpus = [c for c in cs if c.get("_corpus")]
         rest = [c for c in cs if not c.get("_corpus")]
+        first = []
+        if prefer:
+            # the cases the owning harness built to stress exactly this cross-cutting property come first (at most as many
+            # again as the sample), the remaining budget is a seeded sample of everything else
+            first = [c for c in rest if prefer(n, b, c)]
+            rest = [c for c in rest if not prefer(n, b, c)]
+            if len(first) > per_base:
+                first = rng.sample(first, per_base)
         if len(rest) > per_base:
             rest = rng.sample(rest, per_base)
-        for c in corpus + rest:
+        for c in corpus + first + rest:
             c = dict(c)
             c["_h"] = n
             out.append(c)
